@@ -533,6 +533,8 @@ def unbounded_cstring_reads(F, S, scope, functions=None):
             return t
         b = fn.n(fn.strip(a, casts=True))
         ct = b.get("ct") or ""
+        if t[0] == "str":
+            return None         # a string literal, possibly by the name of the constant array it initialises: terminated, immutable
         if ct.startswith("char[") or ct.startswith("const char[") and b["k"] != "StringLiteral":
             return t if b["k"] != "StringLiteral" else None
         if t[0] == "un" and t[1] == "&" and t[2][0] == "idx":
